@@ -22,7 +22,7 @@ PROPERTIES = ["SortIsOnePermutation", "RejectedChangesNothing", "NameIsKey", "Ds
               "CopiesAreFresh", "ShallowCopySharesMembers", "DeepCopyDisjoint"]
 
 
-def write_cfg(name, acts, depth, emit, keys=("a", "b"), maxobj=13, maxgrp=4, check=True, idx=None, ops=None, objs=None):
+def write_cfg(name, acts, depth, emit, keys=("a", "b"), maxobj=13, maxgrp=4, check=True, idx=None, ops=None, objs=None, grps=None, paths=False):
     os.makedirs(os.path.join(common.WORK, "cfg"), exist_ok=True)
     path = os.path.join(common.WORK, "cfg", name + ".cfg")
     lines = ["INIT Init", "NEXT Next",
@@ -32,7 +32,8 @@ def write_cfg(name, acts, depth, emit, keys=("a", "b"), maxobj=13, maxgrp=4, che
              " IdxUse = {" + ",".join(f'"{k}"' for k in (idx or IDX_ALL)) + "}",
              " OpsUse = {" + ",".join(f'"{k}"' for k in (ops or ["add", "sub", "mul", "div"])) + "}",
              " ObjUse = {" + ",".join(str(k) for k in (objs or [])) + "}",
-             "VIEW View", "CHECK_DEADLOCK FALSE", "CONSTRAINT SmallValues"]
+             " GrpUse = {" + ",".join(str(k) for k in (grps or [])) + "}",
+             "VIEW ViewPath" if paths else "VIEW View", "CHECK_DEADLOCK FALSE", "CONSTRAINT SmallValues"]
     if check:
         lines += ["INVARIANT " + i for i in INVARIANTS] + ["PROPERTY " + p for p in PROPERTIES]
     if emit == "transitions":
@@ -44,8 +45,8 @@ def write_cfg(name, acts, depth, emit, keys=("a", "b"), maxobj=13, maxgrp=4, che
     return path
 
 
-def tlc_emit(rep, label, acts, depth, simulate=None, seed=None, sim_depth=None, idx=None, ops=None, objs=None, keys=("a", "b")):
-    cfg = write_cfg(label, acts, depth if not simulate else sim_depth, emit="states" if simulate else "transitions", check=not simulate, idx=idx, ops=ops, objs=objs, keys=keys)
+def tlc_emit(rep, label, acts, depth, simulate=None, seed=None, sim_depth=None, idx=None, ops=None, objs=None, keys=("a", "b"), grps=None, paths=False):
+    cfg = write_cfg(label, acts, depth if not simulate else sim_depth, emit="states" if simulate else "transitions", check=not simulate, idx=idx, ops=ops, objs=objs, keys=keys, grps=grps, paths=paths)
     res = common.run_tlc("Containers", cfg, workers=16, simulate=simulate, depth=sim_depth, seed=seed, timeout=3000)
     rep.tlc(res, label)
     recs = res.json_lines()
@@ -309,6 +310,11 @@ def _run(rep, tier, seed, focus, acts_for_sim):
         # the shape gate over long insert / pop / delete / clear histories (emptying and refilling a group with another shape)
         recs = tlc_emit(rep, "gate-depth5", ["set", "pop", "del", "clear"], 5 if tier == "quick" else 6, objs=[1, 3, 4])
         replay_records(rep, recs, focus, "gate", sample_cap=40000 if tier == "quick" else 300000, seed=seed)
+        # the same alphabet on ONE group with every PATH kept apart (no merging of histories that reach the same state):
+        # an implementation that remembers how a state was reached (a cached shape) is replayed along every path
+        if focus == "dict" or tier == "thorough":
+            recs = tlc_emit(rep, "gate-paths", ["set", "pop", "del"], 5, objs=[1, 3, 4], grps=[1], paths=True)
+            replay_records(rep, recs, focus, "gate-paths", sample_cap=60000 if tier == "quick" else 400000, seed=seed)
     if focus == "alias":
         # conversion - in-place update - conversion: histories of in-place operators alone, on operands in m, cm (Array and Vector) and s
         recs = tlc_emit(rep, "alias-iop-depth3", ["iop", "to"], 3 if tier == "quick" else 4, ops=["add", "mul"], objs=[1, 5, 7, 2])
